@@ -60,7 +60,7 @@ inductive It (α : Type) where
   /-- `map(op, repeat(c), a)` / `map(op, a, repeat(c))`: a number is broadcast -/
   | bl (f : Op2) (c : α) (a : It α)
   | br (f : Op2) (a : It α) (c : α)
-  deriving Repr
+  deriving DecidableEq, Repr
 
 /-- a source: the items it delivers, then `StopIteration` or an exception -/
 structure Src (α : Type) where
@@ -121,7 +121,7 @@ def next (srcs : Nat → Src α) : It α → St α → St α × Res α
 inductive HC (α : Type) where
   | c (v : α)
   | s (e : It α)
-  deriving Repr
+  deriving DecidableEq, Repr
 
 /-- `StreamMeta.__binary__` / `__rbinary__` / number ∘ number -/
 def HC.op (f : Op2) : HC α → HC α → HC α
